@@ -183,6 +183,8 @@ package bip39
 //@ func CheckMnemonic
 //@   let t = split(nfkd(mnemonic), " ")
 //@   let n = slen(t)
+//@   watch tokens.n = n
+//@   watchseq tokens.idx 24 = widx(lg, sat(t, j))
 //@   assigns mappings
 //@   ensures [C02,C03,C10,C13,C15] F1: implies(!validCount(n), result == ErrWordLen)
 //@   ensures [C02,C03,C10,C13,C15] F2: implies(validCount(n) && !allKnown(t, lg, n), result != nil && !is(result, ErrWordLen) && !is(result, ErrChecksumIncorrect) && exists(j, 0, n, widx(lg, sat(t, j)) < 0 && contains(msg(result), sat(t, j))))
